@@ -420,6 +420,266 @@ def check_cmp_small_big(sess):
     return obs
 
 
+def check_floats(sess):
+    """int <-> float conversions (bit-vector mode): to_f64 and from_f64_exact"""
+    from mirsym.contracts import F64
+    obs = []
+    bigw = 128
+    for ka in ('small', 'big'):
+        t1 = time.time()
+        ob = Obligation(f'C10.to_f64[{ka}]', 'int -> float conversion rounds the exact value to nearest-even (exact for inline ints)', f'every i32; big ints with |n| < 2^{bigw - 2}')
+        try:
+            ex = sess.executor(False, bigw=bigw)
+            mem = {}
+            (a, am, ac), = operands(ex, (ka,), ('a',), mem)
+            fn = ex.get_fn(sess.db.find_in_file('int_or_big.rs', 'to_f64', r'_1: StarlarkIntRef<'))
+            outs = ex.run(fn, [a], Path(ac), mem=mem)
+            ob.paths = len(outs)
+            want = z3.fpSignedToFP(z3.RNE(), am, F64)
+            for v, p, m in outs:
+                r, model = sess.decide(ob, list(p.conds) + [z3.Not(v == want)], ex.extra_lemmas)
+                if r == 'sat':
+                    ob.fail({'kind': 'int_to_float', 'a': str(model_signed(model, am)), 'reps': [ka]})
+                elif r == 'unknown':
+                    ob.inconclusive(f'solver unknown: {model}')
+            for pn in ex.panics:
+                sess.panic_edges_checked += 1
+                r, model = sess.decide(ob, pn.conds, ex.extra_lemmas)
+                if r == 'sat':
+                    ob.fail({'kind': 'int_to_float', 'a': str(model_signed(model, am)), 'reps': [ka], 'panic': pn.msg})
+                elif r == 'unknown':
+                    ob.inconclusive('unknown panic edge')
+            ob.twin = 'sat' if outs else 'unsat'
+            if not outs:
+                ob.inconclusive('no return path')
+            sess.absorb(ex)
+        except (Unsupported, LookupError) as e:
+            ob.inconclusive(f'unsupported: {e}')
+        ob.wall_s = time.time() - t1
+        obs.append(sess.add(ob))
+    t1 = time.time()
+    ob = Obligation('C10.from_f64_exact', 'float -> int conversion succeeds exactly for finite integral floats and yields exactly that value in canonical representation; fails otherwise',
+                    f'every f64 bit pattern with |f| < 2^{bigw - 2} (larger magnitudes: outside the claim), NaN and infinities')
+    try:
+        ex = sess.executor(False, bigw=bigw)
+        prev = sess.decider.logic
+        sess.decider.logic = 'QF_FPBV'
+        f = z3.FP('f', F64)
+        fn = ex.get_fn(sess.db.find_in_file('int_or_big.rs', 'from_f64_exact'))
+        outs = ex.run(fn, [f], Path([]))
+        ob.paths = len(outs)
+        finite = z3.Not(z3.Or(z3.fpIsNaN(f), z3.fpIsInf(f)))
+        integral = z3.fpEQ(z3.fpRoundToIntegral(z3.RTZ(), f), f)
+        lim = z3.FPVal(float(1 << (bigw - 2)), F64)
+        inb = z3.Or(z3.Not(finite), z3.fpLT(z3.fpAbs(f), lim))
+        exact_val = z3.fpToSBV(z3.RTZ(), f, z3.BitVecSort(bigw))
+        kinds = set()
+        for v, p, m in outs:
+            if v.variant == 'Ok':
+                val, canon, k = result_value(ex, m, v.fields[0])
+                kinds.add(k)
+                viol = z3.Or(z3.Not(finite), z3.Not(integral), val != exact_val, z3.Not(canon))
+            else:
+                kinds.add('Err')
+                viol = z3.And(finite, integral)
+            r, model = sess.decide(ob, list(p.conds) + [inb, viol], ex.extra_lemmas)
+            if r == 'sat':
+                from .common import model_f64_bits
+                ob.fail({'kind': 'float_to_int', 'bits': '0x%016x' % model_f64_bits(model, f), 'result': v.variant})
+            elif r == 'unknown':
+                ob.inconclusive(f'solver unknown: {model}')
+        for pn in ex.panics:
+            sess.panic_edges_checked += 1
+            r, model = sess.decide(ob, pn.conds + [inb], ex.extra_lemmas)
+            if r == 'sat':
+                from .common import model_f64_bits
+                ob.fail({'kind': 'float_to_int', 'bits': '0x%016x' % model_f64_bits(model, f), 'panic': pn.msg})
+            elif r == 'unknown':
+                ob.inconclusive('unknown panic edge')
+        ob.designated = {'Small result': 'Small' in kinds, 'Big result': 'Big' in kinds, 'error': 'Err' in kinds}
+        for k, okk in ob.designated.items():
+            if not okk:
+                ob.inconclusive(f'designated path "{k}" missing (vacuity)')
+        ob.twin = 'sat'
+        sess.decider.logic = prev
+        sess.absorb(ex)
+    except (Unsupported, LookupError) as e:
+        ob.inconclusive(f'unsupported: {e}')
+    ob.wall_s = time.time() - t1
+    obs.append(sess.add(ob))
+    return obs
+
+
+# ----------------------------------------------------------------------------- StarlarkValue-level operator methods
+def c_ptr_get(ex, st, args, path, callee):
+    from mirsym.contracts import d
+    return [('ret', d(ex, args[0]), path)]
+
+
+def c_unpack_num(ex, st, args, path, callee):
+    from mirsym.contracts import SOME
+    v = args[0]
+    if isinstance(v, Struct) and v.ty == 'ValueNum':
+        return [('ret', SOME(v.fields[0]), path)]
+    raise Unsupported(f'unpack_num of {v}')
+
+
+def c_unpack_int(ex, st, args, path, callee):
+    from mirsym.contracts import SOME, NONE
+    v = args[0]
+    if isinstance(v, Struct) and v.ty == 'ValueNum':
+        n = v.fields[0]
+        return [('ret', SOME(n.fields[0]) if n.variant == 'Int' else NONE(), path)]
+    raise Unsupported(f'StarlarkIntRef::unpack of {v}')
+
+
+def c_alloc_wrap(ex, st, args, path, callee):
+    return [('ret', Struct([args[-1]], 'ValueOf'), path)]
+
+
+VALUE_EXTRA = [
+    ('PointerI32::get = the tagged pointer is the int (receiver plumbing)', r'^(pointer_i32::)?PointerI32::get$', c_ptr_get),
+    ('Value::unpack_num = the other operand\'s NumRef (receiver plumbing)', r'Value::<.*>::unpack_num$', c_unpack_num),
+    ('StarlarkIntRef::unpack(Value) = the other operand\'s int (receiver plumbing)', r'StarlarkIntRef::<.*>::unpack(_value_opt)?$|^<StarlarkIntRef<.*> as UnpackValue<.*>>::unpack_value_opt$', c_unpack_int),
+    ('Heap::alloc(StarlarkInt | Num) = the value itself (allocation is outside the claim)', r'Heap::<.*>::alloc::<(StarlarkInt|Num|values::types::num::value::Num|int_or_big::StarlarkInt)>$', c_alloc_wrap),
+    ('Value::new_int(InlineInt) = the inline int', r'Value::<.*>::new_int$', c_alloc_wrap),
+]
+
+VALUE_OPS = {
+    # method: (mode, oracle, error condition, python op)
+    'add': ('int', lambda a, b: a + b, None, '+'), 'sub': ('int', lambda a, b: a - b, None, '-'), 'mul': ('int', lambda a, b: a * b, None, '*'),
+    'floor_div': ('int', fdiv, lambda a, b: b == 0, '//'), 'percent': ('int', fmod, lambda a, b: b == 0, '%'),
+    'left_shift': ('int', shl_oracle, lambda a, b: z3.Or(b < 0, z3.And(a != 0, b > SHIFT_LIMIT)), '<<'),
+    'right_shift': ('int', shr_oracle, lambda a, b: b < 0, '>>'),
+    'bit_and': ('bv', lambda a, b: a & b, None, '&'), 'bit_or': ('bv', lambda a, b: a | b, None, '|'), 'bit_xor': ('bv', lambda a, b: a ^ b, None, '^'),
+}
+VALUE_UNOPS = {'minus': ('int', lambda a: -a, 'neg'), 'plus': ('int', lambda a: a, None), 'bit_not': ('int', lambda a: -a - 1, 'not')}
+VFILE = {'small': ('pointer_i32.rs', r'_1: &PointerI32'), 'big': ('bigint.rs', r'_1: &StarlarkBigInt')}
+
+
+def unwrap_value(ex, m, v):
+    """Value produced by the method -> StarlarkInt"""
+    v = ex.deref(m, v)
+    while isinstance(v, Struct) and v.ty == 'ValueOf':
+        v = ex.deref(m, v.fields[0])
+    if isinstance(v, Enum) and v.ty == 'Num' and v.variant == 'Int':
+        v = ex.deref(m, v.fields[0])
+    if z3.is_expr(v):          # Value::new_int(InlineInt)
+        return Enum('Small', [v], 'StarlarkInt')
+    return v
+
+
+def check_value_ops(sess):
+    """the operator methods of the two int StarlarkValue impls (the dispatch sites the interpreter really calls)"""
+    obs = []
+    for meth, (mode, oracle, errcond, pyop) in VALUE_OPS.items():
+        for ka, kb in itertools.product(('small', 'big'), repeat=2):
+            t1 = time.time()
+            intmode = mode == 'int'
+            bigw = 128 if sess.tier == 'quick' else 256
+            ob = Obligation(f'C10.value_method.{meth}[{ka},{kb}]', f'`{pyop}` as dispatched from the {ka} int value with a {kb} int operand: exact result or documented error, canonical representation',
+                            'integer mode: no magnitude bound' if intmode else f'bit-vector mode: |big| < 2^{bigw - 2}')
+            try:
+                ex = sess.executor(intmode, bigw=bigw, extra=VALUE_EXTRA)
+                mem = {}
+                (a, am, ac), (b, bm, bc) = operands(ex, (ka, kb), ('a', 'b'), mem)
+                file, rx = VFILE[ka]
+                fn = ex.get_fn(sess.db.find_in_file(file, meth, rx))
+                if ka == 'small':
+                    mem[('h', 'self')] = am
+                    recv = Ref(('h', 'self'))
+                else:
+                    recv = Ref(('h', 'a'))
+                other = Struct([Enum('Int', [b], 'NumRef')], 'ValueNum')
+                outs = ex.run(fn, [recv, other, Opaque('heap')], Path(ac + bc), mem=mem)
+                ob.paths = len(outs)
+                A, B = math_val(ex, am, ka), math_val(ex, bm, kb)
+                lemmas = list(ex.extra_lemmas)
+                if meth in ('left_shift', 'right_shift'):
+                    lemmas += pow2_lemmas(B)
+                    lemmas.append(z3.Implies(B >= (1 << 64), z3.And(A < POW2(B), -A <= POW2(B))))
+                for v, p, m in outs:
+                    ex.cur_mem = m
+                    if isinstance(v, Enum) and v.variant == 'Some':     # Option<Result<Value>>
+                        v = v.fields[0]
+                    if isinstance(v, Enum) and v.variant == 'None':
+                        viol = z3.BoolVal(True)                         # "unsupported" for two ints is wrong
+                    elif v.variant == 'Err':
+                        viol = z3.Not(errcond(A, B)) if errcond else z3.BoolVal(True)
+                    else:
+                        val, canon, _ = result_value(ex, m, unwrap_value(ex, m, v.fields[0]))
+                        viol = z3.Or(val != oracle(A, B), z3.Not(canon))
+                        if errcond:
+                            viol = z3.Or(viol, errcond(A, B))
+                    r, model = sess.decide(ob, list(p.conds) + [viol], lemmas)
+                    if r == 'sat':
+                        wa, wb = witness_ints(model, ex, (am, bm), (ka, kb))
+                        ob.fail({'kind': 'int_binop', 'op': pyop, 'a': str(wa), 'b': str(wb), 'reps': [ka, kb], 'via': f'{file}::{meth}'})
+                    elif r == 'unknown':
+                        ob.inconclusive(f'solver unknown: {model}')
+                for pn in ex.panics:
+                    sess.panic_edges_checked += 1
+                    r, model = sess.decide(ob, pn.conds, lemmas)
+                    if r == 'sat':
+                        wa, wb = witness_ints(model, ex, (am, bm), (ka, kb))
+                        ob.fail({'kind': 'int_binop', 'op': pyop, 'a': str(wa), 'b': str(wb), 'reps': [ka, kb], 'panic': pn.msg, 'in': pn.fn[-80:]})
+                    elif r == 'unknown':
+                        ob.inconclusive('solver unknown on a panic edge')
+                ob.twin = 'sat' if outs else 'unsat'
+                if not outs:
+                    ob.inconclusive('no return path')
+                sess.absorb(ex)
+            except Unsupported as e:
+                ob.inconclusive(f'unsupported MIR: {e}')
+            except LookupError as e:
+                ob.inconclusive(f'function not found: {e}')
+            ob.wall_s = time.time() - t1
+            obs.append(sess.add(ob))
+    for meth, (mode, oracle, pyop) in VALUE_UNOPS.items():
+        for ka in ('small', 'big'):
+            t1 = time.time()
+            ob = Obligation(f'C10.value_method.{meth}[{ka}]', f'unary `{meth}` as dispatched from the {ka} int value', 'integer mode: no magnitude bound')
+            try:
+                ex = sess.executor(True, extra=VALUE_EXTRA)
+                mem = {}
+                (a, am, ac), = operands(ex, (ka,), ('a',), mem)
+                file, rx = VFILE[ka]
+                fn = ex.get_fn(sess.db.find_in_file(file, meth, rx))
+                if ka == 'small':
+                    mem[('h', 'self')] = am
+                    recv = Ref(('h', 'self'))
+                else:
+                    recv = Ref(('h', 'a'))
+                outs = ex.run(fn, [recv, Opaque('heap')], Path(ac), mem=mem)
+                ob.paths = len(outs)
+                for v, p, m in outs:
+                    ex.cur_mem = m
+                    if v.variant != 'Ok':
+                        viol = z3.BoolVal(True)
+                    else:
+                        val, canon, _ = result_value(ex, m, unwrap_value(ex, m, v.fields[0]))
+                        viol = z3.Or(val != oracle(am), z3.Not(canon))
+                    r, model = sess.decide(ob, list(p.conds) + [viol])
+                    if r == 'sat':
+                        ob.fail({'kind': 'int_unop', 'op': pyop or meth, 'a': str(model_int(model, am)), 'reps': [ka]})
+                    elif r == 'unknown':
+                        ob.inconclusive('solver unknown')
+                for pn in ex.panics:
+                    sess.panic_edges_checked += 1
+                    r, model = sess.decide(ob, pn.conds)
+                    if r == 'sat':
+                        ob.fail({'kind': 'int_unop', 'op': pyop or meth, 'a': str(model_int(model, am)), 'reps': [ka], 'panic': pn.msg})
+                ob.twin = 'sat' if outs else 'unsat'
+                if not outs:
+                    ob.inconclusive('no return path')
+                sess.absorb(ex)
+            except (Unsupported, LookupError) as e:
+                ob.inconclusive(f'unsupported: {e}')
+            ob.wall_s = time.time() - t1
+            obs.append(sess.add(ob))
+    return obs
+
+
 def run(sess):
     for op in ('add', 'sub', 'mul', 'floor_div', 'percent', 'left_shift', 'right_shift', 'bitand', 'bitor', 'bitxor', 'cmp', 'eq'):
         check_binop(sess, op)
@@ -429,6 +689,8 @@ def run(sess):
     check_from(sess)
     check_inline_try_from(sess)
     check_cmp_small_big(sess)
+    check_floats(sess)
+    check_value_ops(sess)
 
 
 # ----------------------------------------------------------------------------- interface for ./check
@@ -474,6 +736,28 @@ def replay_witness(w, rp):
         expects = [('ok', str(x))] * 2
         descr = f'host integer {x} round trip'
         role = f'int from {w.get("ty")}'
+    elif kind == 'int_to_float':
+        import struct
+        a = int(w['a'])
+        try:
+            bits = struct.unpack('<Q', struct.pack('<d', float(a)))[0]
+        except OverflowError:
+            return {'reproduced': False, 'detail': 'float(a) overflows in Python', 'role': 'int to float'}
+        cases = [{'kind': 'eval', 'program': 'float(a) == y', 'vars': {'a': {'int': str(a)}, 'y': {'float_bits': '0x%016x' % bits}}}]
+        expects = [('ok', 'True')]
+        descr = f'float({a})'
+        role = 'int to float'
+    elif kind == 'float_to_int':
+        import math
+        import struct
+        f = struct.unpack('<d', struct.pack('<Q', int(w['bits'], 16)))[0]
+        cases = [{'kind': 'eval', 'program': 'int(y)', 'vars': {'y': {'float_bits': w['bits']}}}]
+        if math.isnan(f) or math.isinf(f):
+            expects = [('err', 'not finite')]
+        else:
+            expects = [('ok', str(int(f)))]
+        descr = f'int({f!r})'
+        role = 'float to int'
     else:
         return {'reproduced': False, 'detail': f'unknown witness kind {kind}', 'role': kind}
     got = {}
